@@ -692,6 +692,10 @@ class AttackGraph():
             attacker.entry_points = [entry_point for entry_point in \
                 attacker.entry_points if entry_point is not node]
         self.nodes.remove(node)
+        # The node is detached on both sides, it can be added again later
+        # without dragging links that its former neighbours do not have.
+        node.children = []
+        node.parents = []
 
         if not isinstance(node.id, int):
             raise ValueError(f'Invalid node id.')
@@ -771,6 +775,9 @@ class AttackGraph():
             )
         for node in list(attacker.reached_attack_steps):
             attacker.undo_compromise(node)
+        # Like the reached attack steps, the entry points refer to nodes of
+        # this graph that may be gone by the time the attacker is added again.
+        attacker.entry_points = []
         self.attackers = [graph_attacker for graph_attacker in \
             self.attackers if graph_attacker is not attacker]
         if not isinstance(attacker.id, int):
